@@ -31,7 +31,7 @@ ASSUMPTIONS = [
 SHARDS = {"quick": 8, "thorough": 16}
 TIMEOUT = {"quick": 600, "thorough": 3600}
 MIN_CASES = {"quick": 40_000, "thorough": 500_000}
-REQUIRED_COUNTERS = ["postconditions_evaluated", "tier_i_exact", "tier_ii_exact", "tier_iii_tolerant", "format_errors_seen", "build_update_calls", "metadata_style_1", "metadata_style_2", "metadata_style_3"]
+REQUIRED_COUNTERS = ["postconditions_evaluated", "tier_i_exact", "tier_ii_exact", "tier_iii_tolerant", "format_errors_seen", "build_update_calls", "metadata_style_1", "metadata_style_2", "metadata_style_3", "ambient_context_probes_inside_the_rounding_block"]
 
 NUM_RE = re.compile(r"^[+-]?(\d+(\.\d*)?|\.\d+)([eE][+-]?\d+)?$")
 INT_FORMATS = ["uint8", "uint16", "uint32", "uint64", "int"]
@@ -336,6 +336,61 @@ def judge_numeric(fmt, mn, mx, step, v, result, desc, tier_box):
     return None
 
 
+def ambient_context_part(ctx) -> None:
+    """Invariant at a hook: the conversion computes in a context of its OWN - the decimal context that is current when it is
+    called (shared by every task of the loop, and by worker threads started with asyncio.to_thread, which inherit the same
+    context object) is never altered, not even for the duration of the call. The hook is the characteristic's own `minStep`
+    attribute, which the conversion reads before and INSIDE its step-rounding block."""
+    import decimal
+
+    from aiohomekit.model.characteristics.characteristic import check_convert_value
+
+    class Probe:
+        format = "float"
+        minValue = 10
+        maxValue = 38
+        maxLen = None
+        valid_values = None
+        type = VENDOR_TYPE
+        perms = ["pr", "pw"]
+
+        def __init__(self, step, ambient):
+            self._step, self._ambient, self.reads, self.altered = step, ambient, 0, None
+
+        @property
+        def minStep(self):
+            self.reads += 1
+            now = (self._ambient.prec, self._ambient.rounding)
+            if now != (28, decimal.ROUND_HALF_EVEN) and self.altered is None:
+                self.altered = now
+            return self._step
+
+    k = 0
+    for step in (0.5, 0.1, 1, 5):
+        for value in (27.25, 11, "12.34", 37.99):
+            k += 1
+            if not ctx.mine(k):
+                continue
+            ambient = decimal.Context(prec=28, rounding=decimal.ROUND_HALF_EVEN)
+            decimal.setcontext(ambient)
+            probe = Probe(step, ambient)
+            ctx.case("ambient-context", step, repr(value), sample={"part": "ambient decimal context", "step": step, "input": repr(value)}, kind="ambient-context")
+            try:
+                check_convert_value(value, probe)
+            except Exception as ex:  # noqa: BLE001
+                ctx.mark_inconclusive(f"C14 ambient-context probe: conversion raised {ex!r}")
+                return
+            after = (ambient.prec, ambient.rounding)
+            if probe.altered is not None or after != (28, decimal.ROUND_HALF_EVEN):
+                ctx.violation("ambient-decimal-context-altered", f"step {step} input {value!r}: the caller's decimal context was set to prec/rounding {probe.altered or after} "
+                              f"{'during' if probe.altered else 'after'} the conversion (every other task / worker thread sharing it rounds with that meanwhile: ties no longer go upward for them)",
+                              {"ambient": True, "step": step, "value": value})
+                return
+            if probe.reads >= 2:
+                ctx.count("ambient_context_probes_inside_the_rounding_block")
+    decimal.setcontext(decimal.Context())
+
+
 def run_case(ctx, fmt, mn, mx, step, value, entry, origin=None) -> None:
     from aiohomekit.model.characteristics.characteristic import check_convert_value
 
@@ -492,7 +547,12 @@ def run(ctx) -> None:
             for vi, value in enumerate(vals):
                 entry = "build_update" if (vi + ci) % 4 == 0 else "check_convert_value"
                 run_case(ctx, fmt, mn, mx, step, value, entry)
+    ambient_context_part(ctx)
 
 
 def replay(ctx, d) -> None:
+    if d.get("ambient"):
+        ctx.shard, ctx.nshards = 0, 1
+        ambient_context_part(ctx)
+        return
     run_case(ctx, d["fmt"], d["mn"], d["mx"], d["step"], d["value"], d["entry"])
